@@ -35,7 +35,8 @@ L == [ lor |-> 1, lxor |-> 2, land |-> 3, print |-> 4, yield |-> 5, assign |-> 6
        bor |-> 9, band |-> 10, bitor |-> 11, bitxor |-> 12, bitand |-> 13, eq |-> 14, cmp |-> 15, shift |-> 16,
        add |-> 17, mul |-> 18, not |-> 19, instof |-> 20, unary |-> 21, pow |-> 22, clone |-> 23, atom |-> 30 ]
 
-\* fam: "both" | "7" (PHP 7 only) | "5" (PHP 5 only); flex: needs the >= 7.3 heredoc rule
+\* fam: "both" | "7" (PHP 7-only syntax: PHP 5 must reject it) | "7g" (accepted by both, but PHP 5 groups it
+\* differently: uniform variable syntax) | "5" (PHP 5 only)
 V(id, kind, cats, fam, lvl, leaf, fill) ==
    [id |-> id, kind |-> kind, cats |-> cats, fam |-> fam, lvl |-> lvl, leaf |-> leaf, fill |-> fill]
 
@@ -133,7 +134,7 @@ Atoms == <<
   V("ExprStaticPropertyFetch", "ExprStaticPropertyFetch", {"expr", "var"}, "both", L.atom, FALSE,
     [Class |-> Ch("name", 0), DoubleColonTkn |-> Tk("::"), Prop |-> SimpleVar]),
   \* A::$b[0]: PHP 7 (uniform variable syntax) groups (A::$b)[0]; PHP 5's grammar attaches the dimension to $b
-  V("ExprStaticPropertyFetch/base", "ExprStaticPropertyFetch", {"deref"}, "7", L.atom, FALSE,
+  V("ExprStaticPropertyFetch/base", "ExprStaticPropertyFetch", {"deref"}, "7g", L.atom, FALSE,
     [Class |-> Ch("name", 0), DoubleColonTkn |-> Tk("::"), Prop |-> SimpleVar]),
   V("ExprClassConstFetch", "ExprClassConstFetch", {"expr", "scalar"}, "both", L.atom, FALSE,
     [Class |-> Ch("name", 0), DoubleColonTkn |-> Tk("::"), Const |-> Ident("IDENT")]),
